@@ -190,6 +190,7 @@ enum Mode {
     InProc,
     H1,
     H2,
+    H2Raw,
 }
 
 /// what can be written into an HTTP/1.1 request line without changing its framing
@@ -404,6 +405,216 @@ impl H2 {
     }
 }
 
+// -------------------------------------------------------------------------------------------
+// HTTP/2 with hand-written frames: any text can be put into `:path` (the h2 crate's client refuses, on the client
+// side, what http::uri::PathAndQuery refuses). One connection per request; HPACK: requests are written as literals
+// without Huffman coding; of the response only `:status` (always the first field) is decoded.
+// -------------------------------------------------------------------------------------------
+fn hp_int(out: &mut Vec<u8>, prefix_bits: u8, flags: u8, mut v: usize) {
+    let max = (1usize << prefix_bits) - 1;
+    if v < max {
+        out.push(flags | v as u8);
+    } else {
+        out.push(flags | max as u8);
+        v -= max;
+        while v >= 128 {
+            out.push((v % 128 + 128) as u8);
+            v /= 128;
+        }
+        out.push(v as u8);
+    }
+}
+fn hp_str(out: &mut Vec<u8>, s: &[u8]) {
+    hp_int(out, 7, 0, s.len());
+    out.extend_from_slice(s);
+}
+/// literal header field without indexing, name from the static table
+fn hp_lit_idx(out: &mut Vec<u8>, idx: usize, v: &[u8]) {
+    hp_int(out, 4, 0, idx);
+    hp_str(out, v);
+}
+fn hp_lit_new(out: &mut Vec<u8>, n: &[u8], v: &[u8]) {
+    out.push(0);
+    hp_str(out, n);
+    hp_str(out, v);
+}
+fn hp_read_int(b: &[u8], i: &mut usize, prefix_bits: u8) -> Option<usize> {
+    let max = (1usize << prefix_bits) - 1;
+    let mut v = (*b.get(*i)? as usize) & max;
+    *i += 1;
+    if v == max {
+        let mut shift = 0;
+        loop {
+            let c = *b.get(*i)? as usize;
+            *i += 1;
+            v += (c & 127) << shift;
+            shift += 7;
+            if c & 128 == 0 || shift > 28 {
+                break;
+            }
+        }
+    }
+    Some(v)
+}
+/// the Huffman codes of the digits (RFC 7541 appendix B): '0'..'2' = 00000..00010, '3'..'9' = 011001..011111
+fn hp_huffman_digits(data: &[u8]) -> Option<u16> {
+    let bit = |k: usize| data.get(k / 8).map(|b| (b >> (7 - k % 8)) & 1);
+    let mut k = 0;
+    let mut v: u16 = 0;
+    for _ in 0..3 {
+        let mut c = 0u8;
+        for _ in 0..5 {
+            c = c << 1 | bit(k)?;
+            k += 1;
+        }
+        let d = if c <= 2 {
+            c
+        } else {
+            c = c << 1 | bit(k)?;
+            k += 1;
+            if (0x19..=0x1f).contains(&c) {
+                3 + (c - 0x19)
+            } else {
+                return None;
+            }
+        };
+        v = v * 10 + d as u16;
+    }
+    Some(v)
+}
+fn hp_status(block: &[u8]) -> Option<u16> {
+    let mut i = 0;
+    // dynamic table size updates
+    while block.get(i)? & 0xe0 == 0x20 {
+        hp_read_int(block, &mut i, 5)?;
+    }
+    let b = *block.get(i)?;
+    const STATIC: [u16; 7] = [200, 204, 206, 304, 400, 404, 500];
+    if b & 0x80 != 0 {
+        let idx = hp_read_int(block, &mut i, 7)?;
+        return STATIC.get(idx.checked_sub(8)?).copied();
+    }
+    let idx = hp_read_int(block, &mut i, if b & 0xc0 == 0x40 { 6 } else { 4 })?;
+    if !(8..=14).contains(&idx) {
+        return None;
+    }
+    let huffman = block.get(i)? & 0x80 != 0;
+    let len = hp_read_int(block, &mut i, 7)?;
+    let data = block.get(i..i + len)?;
+    if huffman {
+        hp_huffman_digits(data)
+    } else {
+        std::str::from_utf8(data).ok()?.parse().ok()
+    }
+}
+fn h2_frame(out: &mut Vec<u8>, ty: u8, flags: u8, stream: u32, payload: &[u8]) {
+    out.extend_from_slice(&(payload.len() as u32).to_be_bytes()[1..]);
+    out.push(ty);
+    out.push(flags);
+    out.extend_from_slice(&stream.to_be_bytes());
+    out.extend_from_slice(payload);
+}
+/// the `reason` header of kvarn's answer to an unsafe path (the generated page contains it): taken from the real code, on a
+/// host without a file system
+fn unsafe_reason() -> Option<Vec<u8>> {
+    static R: OnceLock<Option<Vec<u8>>> = OnceLock::new();
+    R.get_or_init(|| {
+        let mut o = host::Options::new();
+        o.disable_fs();
+        let h = Host::unsecure("reference", "/nonexistent-kvarn-verif", Extensions::empty(), o);
+        let r = pipe::block_on(kvarn::error::sanitize_error_into_response(kvarn::prelude::utils::parse::SanitizeError::UnsafePath, &h));
+        r.into_parts().0.headers().get("reason").map(|v| v.as_bytes().to_vec())
+    })
+    .clone()
+}
+async fn h2raw_exchange(front: &Front, method: &[u8], path: &[u8], kind: u128, reason400: Option<&[u8]>) -> Exchange {
+    use tokio::io::{AsyncReadExt, AsyncWriteExt};
+    let tcp = front.connect().await?;
+    let name = rustls::pki_types::ServerName::try_from("localhost").ok()?;
+    let mut s = tokio::time::timeout(IO_TIMEOUT, tokio_rustls::TlsConnector::from(tls().client_h2.clone()).connect(name, tcp))
+        .await
+        .ok()?
+        .ok()?;
+    if s.get_ref().1.alpn_protocol() != Some(b"h2") {
+        return None;
+    }
+    let mut out = b"PRI * HTTP/2.0\r\n\r\nSM\r\n\r\n".to_vec();
+    // SETTINGS: HEADER_TABLE_SIZE = 0 (the server's encoder keeps no dynamic table), ENABLE_PUSH = 0
+    h2_frame(&mut out, 4, 0, 0, &[0, 1, 0, 0, 0, 0, 0, 2, 0, 0, 0, 0]);
+    let mut block = Vec::new();
+    match method {
+        b"GET" => block.push(0x82),
+        b"POST" => block.push(0x83),
+        m => hp_lit_idx(&mut block, 2, m),
+    }
+    block.push(0x87); // :scheme https
+    hp_lit_idx(&mut block, 1, format!("localhost:{H2_PORT}").as_bytes());
+    hp_lit_idx(&mut block, 4, path);
+    for (n, v) in headers_of(kind, SITE_H2) {
+        hp_lit_new(&mut block, n.as_bytes(), v.as_bytes());
+    }
+    h2_frame(&mut out, 1, 0x1 | 0x4, 1, &block); // HEADERS, END_STREAM | END_HEADERS
+    s.write_all(&out).await.ok()?;
+    s.flush().await.ok()?;
+    let mut buf: Vec<u8> = Vec::new();
+    let mut tmp = [0u8; 8192];
+    let mut status: Option<u16> = None;
+    let mut body = Vec::new();
+    loop {
+        while buf.len() < 9 || buf.len() < 9 + ((buf[0] as usize) << 16 | (buf[1] as usize) << 8 | buf[2] as usize) {
+            match tokio::time::timeout(IO_TIMEOUT, s.read(&mut tmp)).await {
+                Ok(Ok(0)) | Ok(Err(_)) => return Some(None), // closed without an answer
+                Ok(Ok(n)) => buf.extend_from_slice(&tmp[..n]),
+                Err(_) => return None,
+            }
+        }
+        let len = (buf[0] as usize) << 16 | (buf[1] as usize) << 8 | buf[2] as usize;
+        let (ty, flags) = (buf[3], buf[4]);
+        let stream = u32::from_be_bytes([buf[5] & 0x7f, buf[6], buf[7], buf[8]]);
+        let payload: Vec<u8> = buf[9..9 + len].to_vec();
+        buf.drain(..9 + len);
+        let unpad = |p: &[u8], skip_priority: bool| -> Option<Vec<u8>> {
+            let mut a = 0;
+            let mut e = p.len();
+            if flags & 0x8 != 0 {
+                e = e.checked_sub(*p.first()? as usize)?;
+                a = 1;
+            }
+            if skip_priority && flags & 0x20 != 0 {
+                a += 5;
+            }
+            Some(p.get(a..e)?.to_vec())
+        };
+        match ty {
+            4 if flags & 1 == 0 => {
+                let mut ack = Vec::new();
+                h2_frame(&mut ack, 4, 1, 0, &[]);
+                s.write_all(&ack).await.ok()?;
+                s.flush().await.ok()?;
+            }
+            3 if stream == 1 => return Some(None), // RST_STREAM
+            7 => return Some(None),                // GOAWAY
+            1 if stream == 1 => {
+                if status.is_none() {
+                    status = Some(hp_status(&unpad(&payload, true)?)?);
+                }
+                if flags & 1 != 0 {
+                    break;
+                }
+            }
+            0 if stream == 1 => {
+                body.extend_from_slice(&unpad(&payload, false)?);
+                if flags & 1 != 0 {
+                    break;
+                }
+            }
+            _ => {}
+        }
+    }
+    let status = status?;
+    Some(Some((status, canon_body(status, if status == 400 { reason400 } else { None }, &body))))
+}
+
 /// `None` = malformed input; `Some(None)` = the scenario could not be run (connection trouble, stall, inotify): retried by the caller
 fn run(x: &X, mode: Mode) -> Option<Option<X>> {
     let l = x.as_l()?;
@@ -445,7 +656,7 @@ fn run(x: &X, mode: Mode) -> Option<Option<X>> {
         kvp("files", c[4].clone()),
         kvp("handlers", X::L(handlers)),
     ];
-    let secure = mode == Mode::H2;
+    let secure = mode == Mode::H2 || mode == Mode::H2Raw;
     let customize = move |_kv: &[(String, X)], host: &mut Host, shared: &Arc<pipe::Shared>| {
         // the fixture has files above the host directory as well
         host.path = format!("{}/host", host.path).into();
@@ -503,6 +714,7 @@ fn run(x: &X, mode: Mode) -> Option<Option<X>> {
             Mode::H1 => wire_ok(target) && wire_ok(method),
             // (a CONNECT request has no `:path` in HTTP/2)
             Mode::H2 => wire_ok(target) && wire_ok(method) && target.starts_with(b"/") && method != b"CONNECT",
+            Mode::H2Raw => wire_ok(target) && wire_ok(method) && method != b"CONNECT",
         };
         if sendable {
             ops.push(Op::Req(method.to_vec(), target.to_vec(), kind));
@@ -510,6 +722,7 @@ fn run(x: &X, mode: Mode) -> Option<Option<X>> {
             ops.push(Op::Skip);
         }
     }
+    let reason400 = if mode == Mode::H2Raw { unsafe_reason() } else { None };
     let res = std::panic::catch_unwind(std::panic::AssertUnwindSafe(|| {
         pipe::block_on(async {
             let mut out = Vec::new();
@@ -557,6 +770,7 @@ fn run(x: &X, mode: Mode) -> Option<Option<X>> {
                             }
                             Mode::H1 => h1.exchange(front.as_ref()?, method, target, *kind).await?,
                             Mode::H2 => h2.exchange(front.as_ref()?, method, target, *kind).await?,
+                            Mode::H2Raw => h2raw_exchange(front.as_ref()?, method, target, *kind, reason400.as_deref()).await?,
                         };
                         let opened = watcher.drain()?;
                         out.push(match answer {
@@ -774,6 +988,7 @@ pub fn dispatch(comp: &str, x: &X) -> Option<X> {
         "pathsanpipe.run" => crate::guarded(|| persistent(x, Mode::InProc)),
         "pathsanpipe.wire" => crate::guarded(|| persistent(x, Mode::H1)),
         "pathsanpipe.h2" => crate::guarded(|| persistent(x, Mode::H2)),
+        "pathsanpipe.h2raw" => crate::guarded(|| persistent(x, Mode::H2Raw)),
         "pathsanpipe.sys" => crate::guarded(|| persistent_sys(x)),
         _ => return None,
     })
